@@ -67,6 +67,8 @@ def mk_case(sess, upto_steps, monitor, spec=None, extra=None):
         "monitor": monitor,
         "input": spec.to_json() if isinstance(spec, InputSpec) else spec,
     }
+    if getattr(sess, "prelude", None):
+        c["prelude"] = sess.prelude
     if extra:
         c.update(extra)
     return c
